@@ -82,6 +82,10 @@ SAMI_PIECES = [
     ('"', "&quot;", "quot"),
     ("'", "&apos;", "apos-named"),
     (E_ACUTE, "&eacute;", "nonascii-named"),
+    ("\u00c9COLE", "&Eacute;COLE", "nonascii-named-capital"),
+    ("MA\u00d1ANA", "MA&Ntilde;ANA", "nonascii-named-capital"),
+    ("\u03a9", "&Omega;", "nonascii-named-capital"),
+    ("\u03c9", "&omega;", "nonascii-named"),
     (E_ACUTE, "&#233;", "nonascii-decimal"),
     (E_ACUTE, E_ACUTE, "nonascii-literal"),
     ("x" + NB + "y", "x&nbsp;y", "nbsp"),
@@ -111,6 +115,8 @@ VTT_PIECES = [
     ("ts", "t<00:00:01.500>s", "tag-timestamp"),
     ("Bob: hi", "<v Bob>hi</v>", "voice"),
     ("Ann B: yo", "<v.loud Ann B>yo", "voice-class"),
+    ("Esme: Hi", "<v.first.loud Esme>Hi", "voice-two-classes"),
+    ("Al: x", "<v.a.b.c Al>x</v>", "voice-two-classes"),
     ("<bold>x</bold>", "<bold>x</bold>", "unknown-tag-b-prefix"),
     ("<center>x", "<center>x", "unknown-tag-c-prefix"),
     ("<video>", "<video>", "unknown-tag-v-prefix"),
